@@ -165,6 +165,13 @@ pub fn corpus(tier: &str) -> Vec<Corpus> {
             out.push(Corpus { input: Input::single(text), features: vec!["owner_embeds_referrer".into()] });
         }
     }
+    // a module whose path equals the path of a type of its parent module
+    for child in ["pub type Inner {\n    pub x: u32,\n}\n", ""] {
+        out.push(Corpus {
+            input: Input { modules: vec![("ui".into(), "pub type Widget {\n    pub x: u32,\n}\n".into()), ("ui::Widget".into(), child.into()), ("ui::other".into(), "pub type O {\n    pub x: u32,\n}\n".into())] },
+            features: vec!["module_path_equals_type_path".into()],
+        });
+    }
     // a derived type with its own vftable block whose first base is placed by an explicit address
     for (addr, declared_first) in [(0, true), (0, false), (8, true), (8, false)] {
         let base = "pub type Base {\n    vftable {\n        pub fn v(&self);\n    },\n    pub a: *const u8,\n}\n";
